@@ -508,6 +508,18 @@ def r05_11(ctx):
             else:
                 ctx.decide('R05.11', f.qual, 'for %s in %s: no early exit' % (src(l.target), src(l.iter)), True if full else None, l,
                            'every level contributes its factor')
+            # a level is not skipped because it has no active functions either: truncate_one_level(k) truncates ALL functions of levels
+            # 0..k with respect to level k+1, so it is not the identity when level k is empty and level k+1 is populated
+            for x in [x for x in ast.walk(l) if isinstance(x, ast.Continue)]:
+                conds = guards.path_conditions(x, stop=l)
+                txt = ' and '.join(('' if p_ else 'not ') + t for (t, p_, _n) in conds)
+                if 'actfun' in txt or 'numactive' in txt or 'active_functions' in txt:
+                    ctx.violated('R05.11', f.qual, 'continue under %s' % txt, x,
+                                 'the factor of a level without active functions is skipped, but truncate_one_level(k) acts on the functions of all '
+                                 'coarser levels (truncation against level k+1): for numactive = (36, 0, 4) the level-0 functions stay untruncated '
+                                 'and T^T A T is not the THB Galerkin matrix (5.9e-1)')
+                else:
+                    ctx.undecided('R05.11', f.qual, 'continue under %s' % (txt or 'always'), x, 'a level factor is skipped under a condition this rule cannot judge')
 
 
 def run(ctx):
